@@ -41,30 +41,30 @@
   "C10"
  ],
  "level": "P",
- "tier": "wip",
+ "tier": "quick",
  "harness": "h_split",
  "replace": [
   "dx_insert_entry",
   "dx_move_dirents"
  ],
  "defines": [
-  "SP_BS=64",
+  "SP_BS=48",
   "SP_SPLITTABLE",
   "EXT2_CUSTOM_MEMORY_ROUTINES"
  ],
  "sources": [
   "lib/ext2fs/dir_iterate.c"
  ],
- "unwind": 10,
- "unwindset": {"h_split.0": 66},
- "unwind_reason": "64-byte block: at most 8 entries of >= 8 bytes (scan loop, specification walkers), at most 5 = 64/12 live entries (sort, split loop); unwinding assertions on",
+ "unwind": 8,
+ "unwindset": {"h_split.0": 50},
+ "unwind_reason": "48-byte block: at most 6 entries of >= 8 bytes (scan loop, specification walkers), at most 4 = 48/12 live entries (sort, split loop); unwinding assertions on",
  "timeout": 600,
  "functions": [
   "lib/ext2fs/link.c:dx_split_leaf",
   "lib/ext2fs/link.c:dx_hash_map_cmp"
  ],
  "assumes": [
-  "SYMBOLIC BLOCK OF 64 BYTES (smaller than any legal ext2 block; dx_split_leaf depends on the block size through blocksize/2 and blocksize/12 only): layout, liveness, names and hashes arbitrary",
+  "SYMBOLIC BLOCK OF 48 BYTES (smaller than any legal ext2 block; dx_split_leaf depends on the block size through blocksize/2 and blocksize/12 only): layout, liveness, names and hashes arbitrary",
   "the leaf is a valid directory block (what add_dirent_to_buf's iteration has checked before dx_link gets EXT2_ET_DIR_NO_SPACE): entries tile the block, rec_len >= 8, multiple of 4, name_len + 8 <= rec_len, csum tail present iff metadata_csum; no live entry with an empty name",
   "NOT EVERY ENTRY QUALIFIES FOR THE MOVE: for each live entry e with the lowest hash, (sum of the other live rec_lens) + rec_len(e)/2 > blocksize/2 (otherwise: finding C10_ht_split_all_move, unit ht_dx_split_leaf_full)",
   "ext2fs_dirhash2 is a stub: an arbitrary function of the first name byte (4 classes, so collisions are frequent) with bit 0 clear (dirhash.c units); libc qsort is an insertion sort in the unit that calls the real comparator; ext2fs_get_mem / get_array / free_mem hand out and track two harness buffers; ext2fs_write_dir_block4 records its arguments and returns an arbitrary error; dx_insert_entry and dx_move_dirents are replaced by contracts that record their arguments (their own proofs: ht_dx_insert_entry_*, ht_dx_move_dirents_*); the contract of dx_move_dirents REQUIRES count >= 1"
@@ -86,14 +86,14 @@
   "dx_move_dirents"
  ],
  "defines": [
-  "SP_BS=64",
+  "SP_BS=48",
   "EXT2_CUSTOM_MEMORY_ROUTINES"
  ],
  "sources": [
   "lib/ext2fs/dir_iterate.c"
  ],
- "unwind": 10,
- "unwindset": {"h_split.0": 66},
+ "unwind": 8,
+ "unwindset": {"h_split.0": 50},
  "unwind_reason": "see ht_dx_split_leaf",
  "timeout": 600,
  "functions": [
@@ -108,6 +108,123 @@
  "native": false
 }
 */
+/* VERIF-UNIT
+{
+ "name": "ht_dx_move_dirents_a",
+ "props": [
+  "C10"
+ ],
+ "level": "B(64)",
+ "tier": "quick",
+ "harness": "h_move",
+ "defines": [
+  "SP_BS=64",
+  "SP_MOVE_UNIT",
+  "SP_LAYOUT=0",
+  "SP_CSUM=0",
+  "EXT2_CUSTOM_MEMORY_ROUTINES"
+ ],
+ "sources": [
+  "lib/ext2fs/dir_iterate.c",
+  "lib/ext2fs/csum.c"
+ ],
+ "unwind": 14,
+ "unwindset": {
+  "h_move.0": 66
+ },
+ "unwind_reason": "at most 3 map entries (cap of the scenario), names <= 12 bytes, 64-byte buffers; unwinding assertions on",
+ "timeout": 600,
+ "functions": [
+  "lib/ext2fs/link.c:dx_move_dirents",
+  "lib/ext2fs/dir_iterate.c:ext2fs_set_rec_len",
+  "lib/ext2fs/csum.c:ext2fs_initialize_dirent_tail"
+ ],
+ "assumes": [
+  "BOUNDED SCENARIO: 64-byte source block (smaller than any legal ext2 block) with the FIXED entry layout rec_len 12,12,12,12,16 with 4-byte names, no checksum tail; inode numbers, name bytes and file types arbitrary; the map lists 1..3 DISTINCT entries of that block in arbitrary order (what dx_split_leaf's scan produces: ht_dx_split_leaf MAP clause); target block arbitrary bytes",
+  "count >= 1 (NONEMPTY clause of ht_dx_split_leaf; count == 0 is finding C10_ht_split_all_move)",
+  "libc memcpy / memset are CBMC's built-in models"
+ ],
+ "native": false
+}
+*/
+/* VERIF-UNIT
+{
+ "name": "ht_dx_move_dirents_b",
+ "props": [
+  "C10"
+ ],
+ "level": "B(64)",
+ "tier": "quick",
+ "harness": "h_move",
+ "defines": [
+  "SP_BS=64",
+  "SP_MOVE_UNIT",
+  "SP_LAYOUT=1",
+  "SP_CSUM=0",
+  "EXT2_CUSTOM_MEMORY_ROUTINES"
+ ],
+ "sources": [
+  "lib/ext2fs/dir_iterate.c",
+  "lib/ext2fs/csum.c"
+ ],
+ "unwind": 14,
+ "unwindset": {
+  "h_move.0": 66
+ },
+ "unwind_reason": "at most 3 map entries (cap of the scenario), names <= 12 bytes, 64-byte buffers; unwinding assertions on",
+ "timeout": 600,
+ "functions": [
+  "lib/ext2fs/link.c:dx_move_dirents",
+  "lib/ext2fs/dir_iterate.c:ext2fs_set_rec_len",
+  "lib/ext2fs/csum.c:ext2fs_initialize_dirent_tail"
+ ],
+ "assumes": [
+  "BOUNDED SCENARIO: 64-byte source block (smaller than any legal ext2 block) with the FIXED entry layout rec_len 20,12,32 with names of 12, 2, 9 bytes, no checksum tail; inode numbers, name bytes and file types arbitrary; the map lists 1..3 DISTINCT entries of that block in arbitrary order (what dx_split_leaf's scan produces: ht_dx_split_leaf MAP clause); target block arbitrary bytes",
+  "count >= 1 (NONEMPTY clause of ht_dx_split_leaf; count == 0 is finding C10_ht_split_all_move)",
+  "libc memcpy / memset are CBMC's built-in models"
+ ],
+ "native": false
+}
+*/
+/* VERIF-UNIT
+{
+ "name": "ht_dx_move_dirents_c",
+ "props": [
+  "C10"
+ ],
+ "level": "B(64)",
+ "tier": "quick",
+ "harness": "h_move",
+ "defines": [
+  "SP_BS=64",
+  "SP_MOVE_UNIT",
+  "SP_LAYOUT=2",
+  "SP_CSUM=1",
+  "EXT2_CUSTOM_MEMORY_ROUTINES"
+ ],
+ "sources": [
+  "lib/ext2fs/dir_iterate.c",
+  "lib/ext2fs/csum.c"
+ ],
+ "unwind": 14,
+ "unwindset": {
+  "h_move.0": 66
+ },
+ "unwind_reason": "at most 3 map entries (cap of the scenario), names <= 12 bytes, 64-byte buffers; unwinding assertions on",
+ "timeout": 600,
+ "functions": [
+  "lib/ext2fs/link.c:dx_move_dirents",
+  "lib/ext2fs/dir_iterate.c:ext2fs_set_rec_len",
+  "lib/ext2fs/csum.c:ext2fs_initialize_dirent_tail"
+ ],
+ "assumes": [
+  "BOUNDED SCENARIO: 64-byte source block (smaller than any legal ext2 block) with the FIXED entry layout rec_len 12,12,12,16 + checksum tail, names of 1, 4, 3, 5 bytes; inode numbers, name bytes and file types arbitrary; the map lists 1..3 DISTINCT entries of that block in arbitrary order (what dx_split_leaf's scan produces: ht_dx_split_leaf MAP clause); target block arbitrary bytes",
+  "count >= 1 (NONEMPTY clause of ht_dx_split_leaf; count == 0 is finding C10_ht_split_all_move)",
+  "libc memcpy / memset are CBMC's built-in models"
+ ],
+ "native": false
+}
+*/
 #include "verif.h"
 #include "dirs_dirent.h"
 
@@ -116,6 +233,7 @@
 #endif
 #define BS ((unsigned)SP_BS)
 #define NAMECAP 12u
+#define DE_LE32_AT(b, o) DE_INO(b, o)
 #define MAXENT (SP_BS / 8)
 #define MAXLIVE (SP_BS / 12)
 
@@ -165,7 +283,7 @@ static blk64_t g_wr_blk[2];
 static int g_ins_calls, g_ins_level, g_ins_seq;
 static __u32 g_ins_hash;
 static blk64_t g_ins_lblk;
-static int g_mv_calls, g_mv_first[2], g_mv_count[2], g_mv_seq[2];
+static int g_mv_calls, g_mv_first0, g_mv_count0, g_mv_seq0, g_mv_first1, g_mv_count1, g_mv_seq1;
 static unsigned char g_old_k;
 
 #ifndef SP_CSUM
@@ -263,9 +381,9 @@ static errcode_t dx_move_dirents(ext2_filsys fs, struct dx_hash_map *map, int co
 	REQUIRES(fs == &FS && from == (void *)BUF && to == (void *)BUF2 && g_mv_calls >= 0 && g_mv_calls < 2)
 	REQUIRES(count >= 1 && map >= MAP && count <= (int)MAXLIVE && map + count <= MAP + MAXLIVE)
 	ENSURES(g_mv_calls == OLD(g_mv_calls) + 1 && g_seq == OLD(g_seq) + 1)
-	ENSURES(g_mv_first[g_mv_calls - 1] == (int)(map - MAP) && g_mv_count[g_mv_calls - 1] == count && g_mv_seq[g_mv_calls - 1] == g_seq)
-	ENSURES(RET == IN.mv_ret[g_mv_calls - 1])
-	ASSIGNS(g_mv_calls, g_seq, __CPROVER_object_whole(g_mv_first), __CPROVER_object_whole(g_mv_count), __CPROVER_object_whole(g_mv_seq));
+	ENSURES(g_mv_calls != 1 || (g_mv_first0 == (int)(map - MAP) && g_mv_count0 == count && g_mv_seq0 == g_seq && RET == IN.mv_ret[0]))
+	ENSURES(g_mv_calls != 2 || (g_mv_first1 == (int)(map - MAP) && g_mv_count1 == count && g_mv_seq1 == g_seq && RET == IN.mv_ret[1]))
+	ASSIGNS(g_mv_calls, g_seq; g_mv_calls == 0: g_mv_first0, g_mv_count0, g_mv_seq0; g_mv_calls == 1: g_mv_first1, g_mv_count1, g_mv_seq1);
 #endif
 
 /* ---- specification walker over a block image (at most MAXENT entries) ---- */
@@ -286,8 +404,12 @@ static struct scan scan_block(const unsigned char *b)
 	for (unsigned n = 0; n < MAXENT; n++) {
 		if (off >= end)
 			break;
+		if (off + DE_HDR > end) {
+			s.valid = 0;
+			break;
+		}
 		unsigned rec = DE_REC(b, off), nl = DE_NL(b, off), ino = DE_INO(b, off);
-		if (!(off + DE_HDR <= end && rec >= DE_HDR && (rec & 3) == 0 && off + rec <= end && nl + DE_HDR <= rec)) {
+		if (!(rec >= DE_HDR && (rec & 3) == 0 && off + rec <= end && nl + DE_HDR <= rec)) {
 			s.valid = 0;
 			break;
 		}
@@ -317,6 +439,8 @@ static int splittable(const unsigned char *b, unsigned min_hash, unsigned total)
 	int ok = 1;
 	for (unsigned n = 0; n < MAXENT; n++) {
 		if (off >= end)
+			break;
+		if (off + DE_HDR > end)
 			break;
 		unsigned rec = DE_REC(b, off);
 		if (DE_INO(b, off) != 0 && DE_NL(b, off) != 0 && HASHOF(b, off) == min_hash && !((total - rec) + rec / 2 > BS / 2))
@@ -355,7 +479,8 @@ void h_split(void)
 	g_seq = 0;
 	g_mem_calls = g_arr_calls = g_free_buf2 = g_free_map = g_bad_free = 0;
 	g_wr_calls = g_ins_calls = g_mv_calls = 0;
-	g_mv_first[0] = g_mv_first[1] = g_mv_count[0] = g_mv_count[1] = -1;
+	g_mv_first0 = g_mv_first1 = g_mv_count0 = g_mv_count1 = -1;
+	g_mv_seq0 = g_mv_seq1 = 0;
 
 	r = dx_split_leaf(&FS, IN.dir, &DIRI, &INFO, BUF, IN.leaf_pblk, IN.new_lblk, IN.new_pblk);
 
@@ -366,6 +491,12 @@ void h_split(void)
 	if (IN.alloc_fail[0] || IN.alloc_fail[1]) {
 		CHECK(r == EXT2_ET_NO_MEMORY && g_wr_calls == 0 && g_ins_calls == 0 && g_mv_calls == 0, "allocation failure: nothing moved or written");
 	} else {
+		/* every entry qualifies for the move (the situation of finding C10_ht_split_all_move; excluded by SP_SPLITTABLE) */
+		int allq = !splittable(BUF, so.min_hash, so.total_live_rec);
+		if (allq && count < 2) {
+			CHECK(r != 0 && g_mv_calls == 0 && g_wr_calls == 0 && g_ins_calls == 0, "a leaf with a single entry cannot be split: refused, nothing written");
+			return;
+		}
 		/* MAP: sorted, and it lists exactly the live entries */
 		CHECK(IN.gm + 1 >= count || MAP[IN.gm].hash <= MAP[IN.gm + 1].hash, "MAP: sorted by hash (ghost index)");
 		{
@@ -378,30 +509,31 @@ void h_split(void)
 			CHECK(hits == 1, "MAP: every live entry of the leaf is listed exactly once (ghost entry)");
 		}
 		CHECK(IN.gm >= count || (DE_INO(BUF, MAP[IN.gm].off) != 0 && (unsigned)MAP[IN.gm].off < BS), "MAP: every listed entry is a live entry of the leaf (ghost index)");
-		CHECK(g_mv_calls >= 1 && g_mv_first[0] >= 1 && g_mv_first[0] + g_mv_count[0] == (int)count, "PARTITION/NONEMPTY: the first move takes map[i .. count) with i >= 1");
-		unsigned i = (unsigned)g_mv_first[0];
+		CHECK(g_mv_calls >= 1 && g_mv_first0 >= 1 && g_mv_first0 + g_mv_count0 == (int)count, "PARTITION/NONEMPTY: the first move takes map[i .. count) with i >= 1");
+		unsigned i = (unsigned)g_mv_first0;
 		/* BALANCE: entry i qualified, entry i-1 did not */
 		{
 			unsigned moved = 0;
 			for (unsigned m = 0; m < MAXLIVE; m++)
 				if (m > i && m < count)
 					moved += MAP[m].size;
-			CHECK(moved + MAP[i].size / 2 <= BS / 2, "BALANCE: the first moved entry still lies (more than half) in the upper half");
-			CHECK(moved + MAP[i].size + MAP[i - 1].size / 2 > BS / 2, "BALANCE: the last entry that stays would not");
+			/* when every entry qualifies the kernel splits by count instead (count/2): BALANCE is not demanded then */
+			CHECK(allq || moved + MAP[i].size / 2 <= BS / 2, "BALANCE: the first moved entry still lies (more than half) in the upper half");
+			CHECK(allq || moved + MAP[i].size + MAP[i - 1].size / 2 > BS / 2, "BALANCE: the last entry that stays would not");
 		}
 		if (IN.mv_ret[0]) {
 			CHECK(r == IN.mv_ret[0] && g_wr_calls == 0 && g_ins_calls == 0, "mover error: nothing written");
 		} else {
-			CHECK(g_wr_calls >= 1 && g_wr_blk[0] == IN.new_pblk && g_wr_seq[0] > g_mv_seq[0] && (g_mv_calls < 2 || g_wr_seq[0] < g_mv_seq[1]),
+			CHECK(g_wr_calls >= 1 && g_wr_blk[0] == IN.new_pblk && g_wr_seq[0] > g_mv_seq0 && (g_mv_calls < 2 || g_wr_seq[0] < g_mv_seq1),
 			      "WRITES: the new block is written after the first move and before the scratch block is reused");
 			if (IN.wr_err[0]) {
 				CHECK(r == IN.wr_err[0] && g_wr_calls == 1 && g_mv_calls == 1 && g_ins_calls == 0, "write error of the new block: old leaf and index untouched");
 			} else {
-				CHECK(g_mv_calls == 2 && g_mv_first[1] == 0 && g_mv_count[1] == (int)i, "PARTITION: the second move repacks exactly map[0 .. i) into the old leaf");
+				CHECK(g_mv_calls == 2 && g_mv_first1 == 0 && g_mv_count1 == (int)i, "PARTITION: the second move repacks exactly map[0 .. i) into the old leaf");
 				if (IN.mv_ret[1]) {
 					CHECK(r == IN.mv_ret[1] && g_wr_calls == 1 && g_ins_calls == 0, "mover error: old leaf and index untouched");
 				} else {
-					CHECK(g_wr_calls == 2 && g_wr_blk[1] == IN.leaf_pblk && g_wr_seq[1] > g_mv_seq[1], "WRITES: then the old leaf block");
+					CHECK(g_wr_calls == 2 && g_wr_blk[1] == IN.leaf_pblk && g_wr_seq[1] > g_mv_seq1, "WRITES: then the old leaf block");
 					if (IN.wr_err[1]) {
 						CHECK(r == IN.wr_err[1] && g_ins_calls == 0, "write error of the old leaf: index untouched");
 					} else {
@@ -410,13 +542,97 @@ void h_split(void)
 						CHECK(g_ins_hash == MAP[i].hash + (MAP[i - 1].hash == MAP[i].hash ? 1u : 0u),
 						      "INDEX: hash of the first moved entry, continuation bit iff equal hashes straddle the split");
 						CHECK(r == IN.ins_ret, "result of the index update is the result");
-						if (MAP[i - 1].hash == MAP[i].hash && count >= 4) REACH("collision straddles the split");
+						if (MAP[i - 1].hash == MAP[i].hash && count >= 3) REACH("collision straddles the split");
 						if (MAP[i - 1].hash < MAP[i].hash && IN.csum) REACH("clean split, checksum feature on");
 					}
 				}
 			}
 		}
 	}
+	REACH("end");
+}
+#endif
+
+#ifdef SP_MOVE_UNIT
+/* ------------------------------------------------------------------ dx_move_dirents on a fixed layout */
+#if SP_LAYOUT == 0
+#define L_N 5
+#define L_REC(n) ((n) == 4 ? 16u : 12u)
+#define L_NL(n) 4u
+#elif SP_LAYOUT == 1
+#define L_N 3
+#define L_REC(n) ((n) == 0 ? 20u : (n) == 1 ? 12u : 32u)
+#define L_NL(n) ((n) == 0 ? 12u : (n) == 1 ? 2u : 9u)
+#else
+#define L_N 4
+#define L_REC(n) ((n) == 3 ? 16u : 12u)
+#define L_NL(n) ((n) == 0 ? 1u : (n) == 1 ? 4u : (n) == 2 ? 3u : 5u)
+#endif
+static unsigned l_off(unsigned n)
+{
+	unsigned o = 0;
+	for (unsigned i = 0; i < L_N; i++)
+		if (i < n)
+			o += L_REC(i);
+	return o;
+}
+
+void h_move(void)
+{
+	errcode_t r;
+	unsigned end = BS - CSZ;
+
+	LOAD_IN();
+	for (unsigned i = 0; i < BS; i++) {
+		BUF[i] = IN.raw[i];
+		BUF2[i] = IN.raw2[i];
+	}
+	ASSUME(IN.csum == SP_CSUM && IN.csum == !!(IN.sb_ro_compat & EXT4_FEATURE_RO_COMPAT_METADATA_CSUM));
+	ASSUME(IN.mcount >= 1 && IN.mcount <= 3 && IN.mcount <= L_N && IN.k < BS);
+	ASSUME(IN.sel[0] < L_N && IN.sel[1] < L_N && IN.sel[2] < L_N);
+	ASSUME(IN.sel[0] != IN.sel[1] && IN.sel[0] != IN.sel[2] && IN.sel[1] != IN.sel[2]);
+	/* the scenario's layout: rec_len and name_len concrete */
+	{
+		unsigned off = 0;
+		for (unsigned n = 0; n < L_N; n++) {
+			BUF[off + 4] = L_REC(n); BUF[off + 5] = 0;
+			BUF[off + 6] = L_NL(n);
+			off += L_REC(n);
+		}
+	}
+	FS.blocksize = BS;
+	FS.super = &SB;
+	SB.s_feature_ro_compat = IN.sb_ro_compat;
+	for (unsigned n = 0; n < 3; n++) {
+		MAP[n].off = l_off(IN.sel[n]);
+		MAP[n].size = L_REC(IN.sel[n]);
+		MAP[n].hash = IN.htab[n];
+	}
+	g_old_k = BUF[IN.k];
+
+	r = dx_move_dirents(&FS, MAP, (int)IN.mcount, BUF, BUF2);
+
+	CHECK(r == 0, "the entries fit: no error");
+	CHECK(BUF[IN.k] == g_old_k, "the source block is not modified");
+	{
+		unsigned off = 0;
+		for (unsigned n = 0; n < 3; n++) {
+			if (n >= IN.mcount)
+				break;
+			unsigned so = l_off(IN.sel[n]), nl = L_NL(IN.sel[n]);
+			unsigned want = (n + 1 == IN.mcount) ? end - off : DE_NEED(nl);
+			CHECK(off + DE_HDR <= end && DE_REC(BUF2, off) == want, "entry n of the target: minimal rec_len, the last one stretched to the end of the block (minus tail)");
+			CHECK(DE_INO(BUF2, off) == DE_INO(BUF, so) && DE_NL(BUF2, off) == nl && DE_FT(BUF2, off) == DE_FT(BUF, so), "entry n of the target carries inode, name_len and file type of map[n]");
+			for (unsigned j = 0; j < NAMECAP; j++)
+				if (j < nl)
+					CHECK(BUF2[off + DE_HDR + j] == BUF[so + DE_HDR + j], "entry n of the target carries the name of map[n]");
+			off += DE_REC(BUF2, off);
+		}
+		CHECK(off == end, "the entries tile the target block exactly");
+	}
+	CHECK(!SP_CSUM || (DE_IS_TAIL(BUF2, BS - DE_TAIL, BS) && DE_LE32_AT(BUF2, BS - 4) == 0), "metadata_csum: the tail is initialised (checksum field 0 until the block is written)");
+	if (IN.mcount == 3 && IN.sel[0] > IN.sel[1]) REACH("three entries, not in block order");
+	if (IN.mcount == 1) REACH("single entry stretched over the block");
 	REACH("end");
 }
 #endif
